@@ -245,12 +245,12 @@ Proof.
   destruct (sbase s) as [|l|t|t|ms|g] eqn:Eb.
   - destruct p; [right; exact Hm|left; unfold bmember_s; rewrite Eb; reflexivity].
   - destruct (Bool.eqb _ p); [apply (nw_same o s Hm)|apply (nw_nil o _ Hm)].
-  - destruct p; [destruct (sub _ c); [apply (nw_same o s Hm)|destruct (sub c _); [right; exact Hm|apply (nw_nil o _ Hm)]]
+  - destruct p; [destruct (sub _ c); [apply (nw_same o s Hm)|destruct (sub c _ || promotable c _); [right; exact Hm|apply (nw_nil o _ Hm)]]
                 |destruct (sub _ c); [apply (nw_nil o _ Hm)|apply (nw_same o s Hm)]].
   - destruct (Bool.eqb _ p); [apply (nw_same o s Hm)|apply (nw_nil o _ Hm)].
-  - destruct p; [destruct (sub _ c); [apply (nw_same o s Hm)|destruct (sub c _); [right; exact Hm|apply (nw_nil o _ Hm)]]
+  - destruct p; [destruct (sub _ c); [apply (nw_same o s Hm)|destruct (sub c _ || promotable c _); [right; exact Hm|apply (nw_nil o _ Hm)]]
                 |destruct (sub _ c); [apply (nw_nil o _ Hm)|apply (nw_same o s Hm)]].
-  - destruct p; [destruct (sub _ c); [apply (nw_same o s Hm)|destruct (sub c _); [right; exact Hm|apply (nw_nil o _ Hm)]]
+  - destruct p; [destruct (sub _ c); [apply (nw_same o s Hm)|destruct (sub c _ || promotable c _); [right; exact Hm|apply (nw_nil o _ Hm)]]
                 |destruct (sub _ c); [apply (nw_nil o _ Hm)|apply (nw_same o s Hm)]].
 Qed.
 
@@ -261,10 +261,10 @@ Proof.
   - destruct (sbase s) as [|l'|t|t|ms|g] eqn:Eb.
     + right; exact Hm.
     + destruct (obj_eqb l' l); [apply (nw_same o s Hm)|apply (nw_nil o _ Hm)].
-    + destruct (isinst l _); [right; exact Hm|apply (nw_nil o _ Hm)].
-    + destruct l; try apply (nw_nil o _ Hm). destruct (sub c t); [right; exact Hm|apply (nw_nil o _ Hm)].
-    + destruct (isinst l _); [right; exact Hm|apply (nw_nil o _ Hm)].
-    + destruct (isinst l _); [right; exact Hm|apply (nw_nil o _ Hm)].
+    + destruct (isinst l _ || promotable _ _); [right; exact Hm|apply (nw_nil o _ Hm)].
+    + destruct l; try apply (nw_nil o _ Hm). destruct (sub c t || promotable c t); [right; exact Hm|apply (nw_nil o _ Hm)].
+    + destruct (isinst l _ || promotable _ _); [right; exact Hm|apply (nw_nil o _ Hm)].
+    + destruct (isinst l _ || promotable _ _); [right; exact Hm|apply (nw_nil o _ Hm)].
   - destruct (sbase s) as [|l'|t|t|ms|g] eqn:Eb; try apply (nw_same o s Hm).
     destruct (obj_eqb l' l); [apply (nw_nil o _ Hm)|apply (nw_same o s Hm)].
 Qed.
